@@ -64,12 +64,12 @@ theorem C13_modifier (o : Onto) (S : List Nat) (h : Resolves o S) :
   constructor
   · rintro ⟨h1, h2⟩
     refine ⟨h1, fun t ht hex => ?_⟩
-    have hid := Onto.get_id ht
+    have hid := Onto.get_id_s ht
     have := (C13_is_modifier o t).2 (by rw [hid]; exact hex)
     rw [h2 t ht] at this; cases this
   · rintro ⟨h1, h2⟩
     refine ⟨h1, fun t ht => ?_⟩
-    have hid := Onto.get_id ht
+    have hid := Onto.get_id_s ht
     cases hm : o.isModifier t with
     | false => rfl
     | true =>
